@@ -287,7 +287,29 @@ func c18Sequences(c *mon.Ctx) {
 				ops[g] = mine
 			}(g)
 		}
+		// meanwhile one more goroutine keeps issuing sends that the kernel refuses (a payload larger than
+		// the socket's send buffer: EMSGSIZE): a failed Send must not disturb the numbers of the others
+		stopFail := make(chan struct{})
+		failDone := make(chan struct{})
+		var refused int64
+		go func() {
+			defer close(failDone)
+			big := make([]byte, 300<<10) // > the default send buffer (208 KiB)
+			for {
+				select {
+				case <-stopFail:
+					return
+				default:
+				}
+				if _, err := cl.Send(syscall.NetlinkMessage{Header: syscall.NlMsghdr{Type: 1, Flags: uapi.NlmFRequest}, Data: big}); err != nil {
+					refused++
+				}
+			}
+		}()
 		wg.Wait()
+		close(stopFail)
+		<-failDone
+		c.Add("sends_refused_by_the_kernel_during_concurrent_sends", refused)
 		cl.Close()
 		var all []seqOp
 		for g := range ops {
@@ -308,34 +330,39 @@ func c18Sequences(c *mon.Ctx) {
 		}
 		c.Add("evaluations", int64(len(all)))
 		c.Add("concurrent_sends", int64(len(all)))
-		// porcupine: fetch-and-increment counter
+		// porcupine: strictly increasing counter
 		pops := make([]porcupine.Operation, len(all))
 		for i, o := range all {
 			pops[i] = porcupine.Operation{ClientId: o.g, Input: nil, Call: o.call, Output: o.val, Return: o.ret}
 		}
 		model := porcupine.Model{
 			Init: func() interface{} { return uint32(0) },
+			// "distinct and increasing across calls": a call returns a value above every value handed out
+			// before it (numbers taken by sends that failed leave gaps, so consecutiveness is not demanded)
 			Step: func(st, in, out interface{}) (bool, interface{}) {
-				return out.(uint32) == st.(uint32)+1, out
+				return out.(uint32) > st.(uint32), out
 			},
 			Equal: func(a, b interface{}) bool { return a.(uint32) == b.(uint32) },
 		}
-		res := porcupine.CheckOperationsTimeout(model, pops, 60*time.Second)
+		// porcupine's search is quick for the 2- and 4-goroutine histories; the 16-goroutine one is decided by
+		// the direct interval check below (exact for distinct values)
+		res := porcupine.Unknown
+		if N <= 4 {
+			tp := time.Now()
+			res = porcupine.CheckOperationsTimeout(model, pops, 60*time.Second)
+			c.Max("porcupine_ms_max", time.Since(tp).Milliseconds())
+		}
 		switch res {
 		case porcupine.Ok:
 			c.Add("porcupine_histories_ok", 1)
 		case porcupine.Illegal:
-			c.Violation("sequence-not-linearizable", fmt.Sprintf("the history of %d concurrent Send calls (%d goroutines) is not linearizable against a fetch-and-increment counter", len(all), N), nil)
+			c.Violation("sequence-not-linearizable", fmt.Sprintf("the history of %d concurrent Send calls (%d goroutines) is not linearizable against a strictly increasing counter", len(all), N), nil)
 		default:
 			c.Add("porcupine_unknown", 1)
 			// direct interval check: linearization points in value order
 			sort.Slice(all, func(i, j int) bool { return all[i].val < all[j].val })
 			p := int64(-1)
 			for i, o := range all {
-				if i > 0 && o.val != all[i-1].val+1 {
-					c.Violation("sequence-gap", fmt.Sprintf("values %d and %d are not consecutive", all[i-1].val, o.val), nil)
-					break
-				}
 				if o.call > p {
 					p = o.call
 				}
@@ -502,7 +529,7 @@ func c18Run(c *mon.Ctx) {
 func init() {
 	register(&mon.CheckSpec{
 		ID: "C18", Level: "exploration",
-		Rule: "cases = (a,c) requests sent with NetlinkClient.Send on a real NETLINK_ROUTE socket - types 0..15 with NLM_F_ACK (header-only echo) and random types in 256..65535 (never 16..255: live rtnetlink operations), flags = any 16 bits | NLM_F_REQUEST, payload lengths 0..8970 (every 37th quick, every length thorough) plus every length 0..64, random short payloads, and clients whose caller-supplied read buffer the reply fills exactly or with 1/4/64 bytes to spare - (most through a second client opened while a first one is open, so the socket's port id differs from the process id) whose NLMSG_ERROR reply, read back with Receive, carries the request as the kernel saw it (length, type, flags, port id, sequence = returned value, payload bytes); (b) N in {2,4,16} goroutines x M sends on one client: per-goroutine increasing, globally distinct, and the recorded {call, return, value} history checked with porcupine against a fetch-and-increment model (direct interval check when porcupine gives up); (d) datagrams of every length 0..64 and random longer ones, arbitrary and ACK-shaped contents, unicast and multicast from a second user-space netlink socket (NETLINK_ROUTE as root, NETLINK_USERSOCK): Receive must return an error and no message, and a later kernel reply must still be received; (e) AuditClient.Receive over the simulated Netlink with datagrams of every length 0..64 and random longer ones ending at a PROT_NONE page. Runs under the race detector; ASan in thorough. distinct_nontrivial = distinct frames, spoofed datagrams, parse inputs and sequence histories.",
+		Rule: "cases = (a,c) requests sent with NetlinkClient.Send on a real NETLINK_ROUTE socket - types 0..15 with NLM_F_ACK (header-only echo) and random types in 256..65535 (never 16..255: live rtnetlink operations), flags = any 16 bits | NLM_F_REQUEST, payload lengths 0..8970 (every 37th quick, every length thorough) plus every length 0..64, random short payloads, and clients whose caller-supplied read buffer the reply fills exactly or with 1/4/64 bytes to spare - (most through a second client opened while a first one is open, so the socket's port id differs from the process id) whose NLMSG_ERROR reply, read back with Receive, carries the request as the kernel saw it (length, type, flags, port id, sequence = returned value, payload bytes); (b) N in {2,4,16} goroutines x M sends on one client: per-goroutine increasing, globally distinct, and the recorded {call, return, value} history checked with porcupine against a strictly increasing counter model (direct interval check when porcupine gives up); (d) datagrams of every length 0..64 and random longer ones, arbitrary and ACK-shaped contents, unicast and multicast from a second user-space netlink socket (NETLINK_ROUTE as root, NETLINK_USERSOCK): Receive must return an error and no message, and a later kernel reply must still be received; (e) AuditClient.Receive over the simulated Netlink with datagrams of every length 0..64 and random longer ones ending at a PROT_NONE page. Runs under the race detector; ASan in thorough. distinct_nontrivial = distinct frames, spoofed datagrams, parse inputs and sequence histories.",
 		Assumptions: []string{
 			"the running kernel echoes rejected NETLINK_ROUTE requests in NLMSG_ERROR replies (netlink_ack) and delivers user-to-user netlink datagrams for root; if sockets cannot be opened the check is inconclusive, not green",
 			"message types 16..255 are never sent (they are live rtnetlink operations)",
